@@ -825,6 +825,14 @@ func (fc *FnCtx) builtin(b *ssa.Builtin, c *ssa.CallCommon, pos token.Pos, resTy
 			fc.assumeHere(implies(inplace, and(eq(robj, sx("s-obj", s.T)), eq(roff, sx("s-off", s.T)), eq(sx("s-cap", res.T), sx("s-cap", s.T)))))
 			nid := fc.nalloc + 1000 + fc.nfresh
 			fc.assumeHere(implies(not(inplace), and(not(eq(robj, "0")), eq(roff, "0"), eq(sx("allocid", robj), num(int64(nid))), eq(sx("kind", robj), "0"))))
+			// allocation clock: a reallocated backing array is younger than everything that existed before
+			if prev, ok := fc.ghost["now"]; ok {
+				fc.ghost = cloneMap(fc.ghost)
+				now := fc.fresh("now", sInt)
+				fc.assumeHere(eq(now, sx("+", prev, "1")))
+				fc.ghost["now"] = now
+				fc.assumeHere(implies(not(inplace), eq(sx("born", robj), now)))
+			}
 			var srcAt string
 			if len(c.Args) > 1 {
 				if add.IsStr {
